@@ -30,7 +30,8 @@ def run(check):
     for label, consts, limit in CONFIGS[check.tier]:
         ws = check.witnesses(label, consts, emit='EmitOps', invariants=INVS, coverage=check.tier == 'thorough', limit=limit)
         runs += [(p, t, consts['NRoots']) for p, t in usimrun.replay(check, ws, consts, limit=limit)]
+    runs += usimrun.random_runs(check)     # random programs over the whole vocabulary
     traces = [r[1] for r in runs]
     for idx, clause, pos in check.validate('ObsC09', traces):
-        check.report(clause, runs[idx][0], runs[idx][1], pos, extra={'NRoots': runs[idx][2]})
+        check.report(clause, runs[idx][0], runs[idx][1], pos, extra=usimrun.run_extra(runs[idx]))
     check.samples = [{'program': r[0], 'trace': r[1][:12]} for r in runs[:: max(1, len(runs) // 3)][:3]]
